@@ -410,3 +410,19 @@ M('C16', 'nonfinite-not-rejected', PI, "        if not np.isfinite(lp):\n       
   "        if np.isnan(lp):\n            return -np.inf\n        else:\n            # Reset to default\n            self.LL_det.set_init_params(self.default_parameters)", 'fire', 'R16.4')
 M('C16', 'silent-exponential-rewrite', PI, "        prob = lambda_p * np.exp(-lambda_p * param_value)", "        prob = np.exp(-param_value * lambda_p) * lambda_p", 'silent')
 M('C16', 'silent-loggaussian-explicit-guard', PI, "        # Using probability density function for log-normal distribution\n", "        if param_value <= 0:\n            return np.inf\n", 'silent')
+
+# ------------------------------------------------------------------ C13
+M('C13', 'revert-rule-reset', SB, "        rule_rxn = None\n        rule_type = None\n        rule_formula = libsbml.formulaToL3String(rule.getMath())", "        rule_formula = libsbml.formulaToL3String(rule.getMath())", 'fire', 'R13.1-no-leak/import_sbml_rules/rule_type')
+M('C13', 'stoichiometry-ignored', SB,
+  "            if reactantspecies_id in allspecies:\n                if np.isfinite(reactant.getStoichiometry()):\n                    for i in range(int(reactant.getStoichiometry())):\n                        reactant_list.append(reactantspecies_id)",
+  "            if reactantspecies_id in allspecies:\n                if np.isfinite(reactant.getStoichiometry()):\n                    reactant_list.append(reactantspecies_id)", 'fire', 'R13.3-stoichiometry/reactant_list')
+M('C13', 'formula-before-rename', SB, "        kl = reaction.getKineticLaw()\n", "        kl = reaction.getKineticLaw()\n        math_ast = kl.getMath()\n        kl_formula = libsbml.formulaToL3String(math_ast)\n", 'silent')
+M('C13', 'formula-before-rename-2', SB, "        math_ast = kl.getMath()\n        if math_ast is None:\n            raise ValueError(\"Could not import the rate law for reaction to SBML.\")\n        kl_formula = libsbml.formulaToL3String(math_ast)\n",
+  "        if math_ast is None:\n            raise ValueError(\"Could not import the rate law for reaction to SBML.\")\n", 'fire', 'R13.4-local-parameters')
+M('C13', 'local-value-under-old-id', SB, "                pid = newid\n", "", 'fire', 'R13.4-local-parameters')
+M('C13', 'concentration-overrides-amount', SB, "        if np.isfinite(s.getInitialConcentration()) and allspecies[sid] == 0:", "        if np.isfinite(s.getInitialConcentration()):", 'fire', 'R13.5-initial-values')
+M('C13', 'rate-rule-also-rule', SB, "            rule_rxn = ([], [rulevariable], propensity_params['type'], propensity_params)", "            rule_type = 'assignment'\n            rule_rxn = ([], [rulevariable], propensity_params['type'], propensity_params)", 'fire', 'R13.2-rule-translation/rateRule')
+M('C13', 'rate-rule-consumes', SB, "            rule_rxn = ([], [rulevariable], propensity_params['type'], propensity_params)", "            rule_rxn = ([rulevariable], [rulevariable, rulevariable], propensity_params['type'], propensity_params)", 'fire', 'R13.2-rule-shape')
+M('C13', 'delay-products-dropped-in-assembly', SB, "                                            delay_type, delay_reactants, delay_products, delay_param_dict, \n", "                                            delay_type, delay_reactants, delay_reactants, delay_param_dict, \n", 'fire', 'R13.6-assembly')
+M('C13', 'new-carried-variable', SB, "        reactant_list = []\n        product_list = []\n", "        reactant_list = []\n        if reaction.getReversible():\n            product_list = []\n", 'fire', 'R13.1-no-leak/import_sbml_reactions/product_list')
+M('C13', 'silent-reset-elsewhere', SB, "        rule_rxn = None\n        rule_type = None\n        rule_formula = libsbml.formulaToL3String(rule.getMath())", "        rule_type, rule_rxn = None, None\n        rule_formula = libsbml.formulaToL3String(rule.getMath())", 'silent')
